@@ -35,7 +35,15 @@ func c20Lookup(c *vk.Ctx) {
 		case 0: // nil / malformed addresses
 			var addr net.Addr
 			var cls string
-			switch r.Intn(7) {
+			switch r.Intn(11) {
+			case 7:
+				addr, cls = strAddr(fmt.Sprintf("::1:%d", 40000+r.Intn(999))), "ipv6-and-port-without-brackets"
+			case 8:
+				addr, cls = strAddr(fmt.Sprintf("2001:db8::%x:%d", 1+r.Intn(0xffe), 40000+r.Intn(999))), "ipv6-and-port-without-brackets"
+			case 9:
+				addr, cls = strAddr(pick(r, []string{"[::1:80", "2001:db8::9]:80", "[2606:4700::1:443"})), "unbalanced-brackets"
+			case 10:
+				addr, cls = strAddr(pick(r, []string{"[[::1]]:80", "[[2606:4700::1]]:443"})), "doubled-brackets"
 			case 0:
 				addr, cls = nil, "nil-addr"
 			case 1:
